@@ -38,6 +38,7 @@ import (
 	"math/bits"
 	"sort"
 	"strings"
+	"syscall"
 
 	"verif/vs"
 	"verif/vs/drv"
@@ -79,15 +80,6 @@ func c04new(n int64, r1, r2 uint64) (it *rangeIterator, err error, pan any) {
 	c04rand = c04src{q: [2]uint64{r1, r2}}
 	it, err = newRangeIterator(n)
 	return
-}
-
-func c04next(it *rangeIterator) (ok bool, pan any) {
-	defer func() {
-		if r := recover(); r != nil {
-			pan = r
-		}
-	}()
-	return it.Next(), nil
 }
 
 // ---- table access (the real variable), as plain integers ----
@@ -184,9 +176,82 @@ type c04run struct {
 	aborted bool
 }
 
+// c04marks records yielded values in a bitmap. For large n the random bitmap writes are the
+// bottleneck (every one a cache and TLB miss), so values are first appended to per-bucket buffers
+// (a bucket = 2^21 consecutive values = a 256 kB bitmap segment) and a buffer is applied to its
+// segment when it is full: the same test-and-set, just reordered to be cache-resident.
+type c04marks struct {
+	bm      []uint64
+	buf     [][]uint32
+	dup     int64 // a value that was yielded twice (0: none seen so far)
+	bucketd bool
+}
+
+const c04bucketShift = 21
+
+func c04newMarks(bm []uint64, n int64, buf *[][]uint32) *c04marks {
+	m := &c04marks{bm: bm}
+	if n >= 1<<25 {
+		m.bucketd = true
+		nb := int(n>>c04bucketShift) + 1
+		for len(*buf) < nb {
+			*buf = append(*buf, make([]uint32, 0, 512))
+		}
+		m.buf = (*buf)[:nb]
+		for i := range m.buf {
+			m.buf[i] = m.buf[i][:0]
+		}
+	}
+	return m
+}
+
+func (m *c04marks) flush(k int) {
+	base := int64(k) << c04bucketShift
+	for _, off := range m.buf[k] {
+		x := base + int64(off)
+		w, b := x>>6, uint(x&63)
+		if m.bm[w]>>b&1 == 1 && m.dup == 0 {
+			m.dup = x
+		}
+		m.bm[w] |= 1 << b
+	}
+	m.buf[k] = m.buf[k][:0]
+}
+
+// add marks x; false = x was seen before (for bucketed marks the answer may come later, via dup).
+func (m *c04marks) add(x int64) bool {
+	if !m.bucketd {
+		w, b := x>>6, uint(x&63)
+		if m.bm[w]>>b&1 == 1 {
+			m.dup = x
+			return false
+		}
+		m.bm[w] |= 1 << b
+		return true
+	}
+	k := int(x >> c04bucketShift)
+	s := append(m.buf[k], uint32(x&(1<<c04bucketShift-1)))
+	m.buf[k] = s
+	if len(s) == cap(s) {
+		m.flush(k)
+	}
+	return m.dup == 0
+}
+
+func (m *c04marks) finish() {
+	for k := range m.buf {
+		m.flush(k)
+	}
+}
+
 // c04exhaust checks "each of 1..n exactly once, then stop, Next stays false". bm must be zeroed for
 // words 0..n/64. Returns "" when the run conforms.
-func c04exhaust(c *drv.Ctx, it *rangeIterator, n int64, bm []uint64, keepFirst int) (r c04run, bad string) {
+func c04exhaust(c *drv.Ctx, it *rangeIterator, n int64, m *c04marks, keepFirst int) (r c04run, bad string) {
+	defer func() {
+		if p := recover(); p != nil {
+			bad = fmt.Sprintf("panic after %d values and %d Next calls: %v", r.yielded, r.calls, p)
+		}
+	}()
 	for {
 		v := it.Int()
 		if v == nil || !v.IsInt64() {
@@ -196,21 +261,19 @@ func c04exhaust(c *drv.Ctx, it *rangeIterator, n int64, bm []uint64, keepFirst i
 		if x < 1 || x > n {
 			return r, fmt.Sprintf("value #%d is %d, outside 1..%d", r.yielded+1, x, n)
 		}
-		w, b := x>>6, uint(x&63)
-		if bm[w]>>b&1 == 1 {
-			return r, fmt.Sprintf("value %d yielded twice (second time as value #%d of %d)", x, r.yielded+1, n)
+		if !m.add(x) {
+			return r, fmt.Sprintf("value %d yielded twice (noticed at value #%d of %d)", m.dup, r.yielded+1, n)
 		}
-		bm[w] |= 1 << b
 		r.yielded++
+		if r.yielded > n {
+			m.finish()
+			return r, fmt.Sprintf("more than n=%d values yielded (a value repeated: %d)", n, m.dup)
+		}
 		if len(r.first) < keepFirst {
 			r.first = append(r.first, x)
 		}
-		ok, pan := c04next(it)
 		r.calls++
-		if pan != nil {
-			return r, fmt.Sprintf("Next panicked after %d values: %v", r.yielded, pan)
-		}
-		if !ok {
+		if !it.Next() {
 			break
 		}
 		if r.yielded&0x3FFFFF == 0 && c.Expired() {
@@ -218,10 +281,14 @@ func c04exhaust(c *drv.Ctx, it *rangeIterator, n int64, bm []uint64, keepFirst i
 			return r, ""
 		}
 	}
+	m.finish()
+	if m.dup != 0 {
+		return r, fmt.Sprintf("value %d yielded twice (%d values yielded, n=%d)", m.dup, r.yielded, n)
+	}
 	if r.yielded != n {
 		miss := int64(0)
 		for x := int64(1); x <= n; x++ {
-			if bm[x>>6]>>uint(x&63)&1 == 0 {
+			if m.bm[x>>6]>>uint(x&63)&1 == 0 {
 				miss = x
 				break
 			}
@@ -229,17 +296,15 @@ func c04exhaust(c *drv.Ctx, it *rangeIterator, n int64, bm []uint64, keepFirst i
 		return r, fmt.Sprintf("stopped after %d of %d values (smallest value never yielded: %d)", r.yielded, n, miss)
 	}
 	for i := 0; i < 3; i++ {
-		ok, pan := c04next(it)
 		r.calls++
-		if pan != nil {
-			return r, fmt.Sprintf("Next panicked after the end: %v", pan)
-		}
-		if ok {
+		if it.Next() {
 			return r, fmt.Sprintf("Next returned true again after it had returned false (call %d after the end, value %v)", i+1, it.Int())
 		}
 	}
 	return r, ""
 }
+
+var c04bufs [][]uint32
 
 func c04clear(bm []uint64, n int64) {
 	w := bm[:n>>6+1]
@@ -326,7 +391,7 @@ func verifC04(c *drv.Ctx) {
 		"(complete: the code uses the draws only as exponents k>=1 of N^k mod (P-1) and G'^k mod P, and every value of such a power sequence occurs for k <= modulus); "+
 		"each constructed iterator's full state (P,G',I,startI,limit,stop,aliasing) is read back, each distinct state is run to exhaustion against a bitmap, equal states are merged; "+
 		"(b) ENUMERATED: for table rows with P <= %s the whole orbit of G in Z/P with native arithmetic and a bitmap (P-1 distinct states back to 1 <=> P prime and G a generator), gcd(N,P-1)=1, table shape, rejection of n<=0 and n>=2^32+61 by the real constructor; "+
-		"(c) ENUMERATED: rows with P <= %s, n in {P_(k-1), 2^k, P_k-1} x draw pairs from {0, 2^63-1, 3 fixed} (all 25 pairs for P < 2^17, 5 pairs above), real iterator run to exhaustion against a bitmap. "+
+		"(c) ENUMERATED: rows with P <= %s, n in {P_(k-1), 2^k, P_k-1} x draw pairs from {0, 2^63-1, 3 fixed} (all 25 pairs for P < 2^17; the 5 pairs (0,0),(max,max),3 fixed for P < 2^28; for rows 29-32 (0,0),(max,max) and one fixed pair at n=2^k), real iterator run to exhaustion against a bitmap. "+
 		"NOT ENUMERATED, RESTS ON A LEMMA: for n above the (a) bound the claim over all 2^126 draw pairs follows from (b) + 'G generates a cyclic group of order m and gcd(e,m)=1 => G^e generates it' + the control flow of Next exercised in (a); the lemma is trusted. "+
 		"distinct/non-trivial case = a post-construction iterator state not seen before for the same n (a), a table row (b), an (n,draws) run (c)",
 		aRows, rows[aRows-1].P-1, c04pname(bMaxP), c04pname(cMaxP))
@@ -369,22 +434,32 @@ func verifC04(c *drv.Ctx) {
 		vals := []uint64{0, c04max, c04fixed[0], c04fixed[1], c04fixed[2]}
 		for _, n := range c04boundaryNs(rows, i) {
 			f := 1.0
-			if r.P > 1<<27 {
-				f = 1.6
+			if r.P > 1<<25 {
+				f = 1.3
 			}
-			if r.P < 1<<17 {
+			add := func(r1, r2 uint64) {
+				units = append(units, c04unit{sec: 'c', row: i, n: n, r1: r1, r2: r2, cost: float64(r.P)*f + 50})
+			}
+			switch {
+			case r.P < 1<<17: // all 25 pairs
 				for _, r1 := range vals {
 					for _, r2 := range vals {
-						units = append(units, c04unit{sec: 'c', row: i, n: n, r1: r1, r2: r2, cost: float64(r.P)*f + 50})
+						add(r1, r2)
 					}
 				}
-			} else {
+			case r.P < 1<<28+1000: // 5 pairs: (0,0), (max,max), 3 fixed
 				for j := range vals {
 					r2 := vals[j]
 					if j >= 2 {
 						r2 = vals[2+(j-1)%3]
 					}
-					units = append(units, c04unit{sec: 'c', row: i, n: n, r1: vals[j], r2: r2, cost: float64(r.P)*f + 50})
+					add(vals[j], r2)
+				}
+			default: // rows 29..32 (up to 4.3e9 big.Int steps per run): the extremes, and one fixed pair for n = 2^k
+				add(0, 0)
+				add(c04max, c04max)
+				if n == int64(1)<<uint(r.K) {
+					add(c04fixed[0], c04fixed[1])
 				}
 			}
 		}
@@ -419,6 +494,8 @@ func verifC04(c *drv.Ctx) {
 			if c.Expired() {
 				continue
 			}
+			t0 := c04nowMs()
+			defer0 := func() { c.Add(string(u.sec)+"_wall_ms", c04nowMs()-t0) }
 			switch u.sec {
 			case 't':
 				c04shape(c, rows)
@@ -429,6 +506,7 @@ func verifC04(c *drv.Ctx) {
 			case 'c':
 				c04partC(c, rows, u, need(uint64(u.n)+1), fail)
 			}
+			defer0()
 		}
 	}
 	x := vs.Run(nil, func(s *vs.Sched) {
@@ -447,6 +525,13 @@ func verifC04(c *drv.Ctx) {
 				fmt.Sprintf("table row %d: P=%d G=%d: G is not invertible mod P (or a non-positive entry); the real iterator is not run for this row because Next need not terminate", r.K, int64(r.P), int64(r.G)), nil)
 		}
 	}
+}
+
+// c04nowMs: real wall clock (the time package is redirected to virtual time in this flavour).
+func c04nowMs() int64 {
+	var tv syscall.Timeval
+	syscall.Gettimeofday(&tv)
+	return int64(tv.Sec)*1000 + int64(tv.Usec)/1000
 }
 
 func c04pname(p uint64) string {
@@ -555,7 +640,7 @@ func c04partA(c *drv.Ctx, rows []c04row, u *c04unit, bm []uint64, fail func(byte
 			if len(c.R.Samples) < 2 && (r1+r2+uint64(n))%7 == uint64(c.Seed%7) {
 				keep = 8
 			}
-			run, bad := c04exhaust(c, it, n, bm, keep)
+			run, bad := c04exhaust(c, it, n, c04newMarks(bm, n, &c04bufs), keep)
 			c.R.States += run.yielded
 			c.R.Transitions += run.calls
 			c.Add("a_iterator_runs", 1)
@@ -656,7 +741,7 @@ func c04partC(c *drv.Ctx, rows []c04row, u *c04unit, bm []uint64, fail func(byte
 	if r.K >= 17 && u.r1 == c04max {
 		keep = 8
 	}
-	run, bad := c04exhaust(c, it, n, bm, keep)
+	run, bad := c04exhaust(c, it, n, c04newMarks(bm, n, &c04bufs), keep)
 	c.R.States += run.yielded
 	c.R.Transitions += run.calls
 	c.Add("c_iterator_runs", 1)
